@@ -81,17 +81,22 @@ doc = "\n".join(parts)
 # numbers the document quotes are computed, not typed
 n_fix = sum(1 for f in kf if str(f.get("status", "")).startswith("fixed"))
 open_keys = [f for f in kf if f.get("status") == "open"]
-rounds = {"a": [s for n, s in status.items() if "agentb" not in n],
-          "b": [s for n, s in status.items() if "agentb" in n]}
+rounds = {"a": [s for n, s in status.items() if "agentb" not in n and "agentc" not in n],
+          "b": [s for n, s in status.items() if "agentb" in n],
+          "c": [s for n, s in status.items() if "agentc" in n]}
+rounds = {k: v for k, v in rounds.items() if v}
 weak = ("C03", "C09", "C10", "C16", "C18")
 rt = ["| round | changes | caught at first run | caught now |", "|---|---:|---:|---:|"]
 for r, ss in rounds.items():
     rt.append(f"| {r} | {len(ss)} | {sum(x['first_run'] == 'caught' for x in ss)} | "
               f"{sum(bool(x['now']) for x in ss)} |")
 weak_first = {}
-for r in ("a", "b"):
-    ss = [s for n, s in status.items() if n.split("-")[0] in weak
-          and (("agentb" in n) == (r == "b"))]
+def _round_of(n):
+    return "b" if "agentb" in n else ("c" if "agentc" in n else "a")
+
+
+for r in rounds:
+    ss = [s for n, s in status.items() if n.split("-")[0] in weak and _round_of(n) == r]
     weak_first[r] = sum(x['first_run'] == 'caught' for x in ss)
     rt.append(f"| {r}, only C03 C09 C10 C16 C18 | {len(ss)} | "
               f"{sum(x['first_run'] == 'caught' for x in ss)} | "
